@@ -78,6 +78,8 @@ func (c17) Plan(tier string, seed int64) []core.Scenario {
 	// a healthy but slow link: a large response keeps the server's writer busy for seconds while pings and
 	// pongs are due in both directions (shared with C14)
 	out = append(out, core.Sc("slowpeer").WithN("mb", 24))
+	// pings switched off: the read deadline alone has to notice a silent peer (shared with C03)
+	out = append(out, core.Sc("noping-blackhole").WithN("inflight", 1))
 	for i := range out {
 		out[i].Seed = seed*141650939 + int64(i)
 	}
@@ -86,6 +88,10 @@ func (c17) Plan(tier string, seed int64) []core.Scenario {
 
 func (p c17) Run(sc core.Scenario) core.Result {
 	r := core.NewR(sc)
+	if sc.Kind == "noping-blackhole" {
+		runNoPingBlackhole(sc, r)
+		return r.Result()
+	}
 	if sc.Kind == "slowpeer" {
 		c14{}.slowPeer(sc, r)
 		return r.Result()
